@@ -210,7 +210,7 @@ func (g *verifGen) simpleStmt() string {
 	return "b -= 2"
 }
 
-const verifNStmt = 52
+const verifNStmt = 58
 
 func (g *verifGen) stmt(depth int) string {
 	if depth == 0 {
@@ -329,6 +329,18 @@ func (g *verifGen) stmtWith(tmpl, depth int) string {
 		return "for _, v := range " + `"abc"` + " {\n_ = v\n}"
 	case 51:
 		return "var q *T = p\nq.Y = append(q.Y, " + I() + ")"
+	case 52: // switch with an init statement and no tag
+		return "switch x := " + I() + "; {\ncase x > 0:\n" + S() + "\n}"
+	case 53: // expression statement as switch init, no tag
+		return "switch h(" + I() + ", str); {\ncase ok:\n" + S() + "\n}"
+	case 54: // for with init and post but no condition
+		return "for i := 0; ; i++ {\nif i > " + I() + " {\nbreak\n}\n}"
+	case 55: // for with only a post statement
+		return "for ; ; a++ {\nif " + B() + " {\nbreak\n}\n}"
+	case 56: // type switch with an init statement
+		return "switch x := " + I() + "; v := e.(type) {\ncase int:\n_, _ = v, x\ndefault:\n" + S() + "\n}"
+	case 57: // if with an expression-statement init
+		return "if h(" + I() + ", str); " + B() + " {\n" + S() + "\n}"
 	}
 	return "a = 0"
 }
@@ -1002,7 +1014,7 @@ func VerifH_C02_roundtrip() {
 	if got == nil || got.Body == nil {
 		return
 	}
-	vp.Assert("C02.roundtrip.same", vp.Canon(got.Body) == vp.Canon(orig.Body))
+	vp.Assert("C02,C12.roundtrip.same", vp.Canon(got.Body) == vp.Canon(orig.Body))
 	// soundness: the emitted function type-checks in the original environment
 	i := strings.Index(text, "func body2")
 	if i >= 0 {
